@@ -1854,3 +1854,56 @@ def n_stdvec_extend(ex, callee, a, env):
 def n_stdvec_push(ex, callee, a, env):
     deref(a[0]).items.append(a[1])
     return UNIT
+
+
+# ----------------------------------------------------------------------------- more float helpers (sign manipulation keeps the bit pattern symbolic)
+def _fbits(f):
+    if not isinstance(f, FloatVal) or f.bits is None:
+        raise Unsupported(f'float bit manipulation of {f!r}')
+    return f.bits, (32 if f.ty == 'f32' else 64)
+
+
+@native(r'(f32|f64)(::<.*>)?::abs$', 'float::abs')
+def n_fabs(ex, callee, a, env):
+    f = deref(a[0])
+    bits, w = _fbits(f)
+    m = (1 << (w - 1)) - 1
+    r = FloatVal(bits & m, f.ty, f.src)
+    r.ops = list(f.ops or []) + ['abs']
+    return r
+
+
+@native(r'^<(f32|f64) as (core::ops::|std::ops::)?Neg>::neg$', 'float::neg')
+def n_fneg(ex, callee, a, env):
+    f = deref(a[0])
+    bits, w = _fbits(f)
+    r = FloatVal(bits ^ (1 << (w - 1)), f.ty, f.src)
+    r.ops = list(f.ops or []) + ['neg']
+    return r
+
+
+@native(r'(f32|f64)(::<.*>)?::is_sign_positive$', 'float::is_sign_positive')
+def n_is_sign_pos(ex, callee, a, env):
+    return Not(float_class(ex, deref(a[0]), 'neg'))
+
+
+@native(r'(f32|f64)(::<.*>)?::to_bits$', 'float::to_bits')
+def n_to_bits(ex, callee, a, env):
+    return _fbits(deref(a[0]))[0]
+
+
+@native(r'(f32|f64)(::<.*>)?::from_bits$', 'float::from_bits')
+def n_from_bits(ex, callee, a, env):
+    m = re.search(r'(f32|f64)', callee)
+    return FloatVal(a[0], m.group(1))
+
+
+@native(r'(f32|f64)(::<.*>)?::copysign$', 'float::copysign')
+def n_copysign(ex, callee, a, env):
+    f, g = deref(a[0]), deref(a[1])
+    fb, w = _fbits(f)
+    gb, _ = _fbits(g)
+    m = (1 << (w - 1)) - 1
+    r = FloatVal((fb & m) | (gb & (1 << (w - 1))), f.ty, f.src)
+    r.ops = list(f.ops or []) + ['copysign']
+    return r
